@@ -9,6 +9,7 @@ import (
 	"github.com/google/uuid"
 	"github.com/internetarchive/Zeno/internal/pkg/config"
 	"github.com/internetarchive/Zeno/internal/pkg/log"
+	"github.com/internetarchive/Zeno/internal/pkg/verifhook"
 	"github.com/internetarchive/gocrawlhq"
 )
 
@@ -86,6 +87,7 @@ func producerReceiver(ctx context.Context, wg *sync.WaitGroup, batchCh chan *pro
 			logger.Debug("closing")
 			return
 		case item := <-globalHQ.produceCh:
+			verifhook.At("hq.prod.recv", item)
 			URL := gocrawlhq.URL{
 				Value: item.GetURL().Raw,
 				Via:   item.GetSeedVia(),
@@ -96,6 +98,7 @@ func producerReceiver(ctx context.Context, wg *sync.WaitGroup, batchCh chan *pro
 				logger.Debug("sending batch to dispatcher", "size", len(batch.URLs))
 				// Send the batch to batchCh.
 				copyBatch := *batch
+				verifhook.At("hq.prod.cut", "size", copyBatch.URLs)
 				select {
 				case <-ctx.Done():
 					logger.Debug("closed")
@@ -108,9 +111,11 @@ func producerReceiver(ctx context.Context, wg *sync.WaitGroup, batchCh chan *pro
 				ticker.Reset(maxWaitTime)
 			}
 		case <-ticker.C:
+			verifhook.At("hq.prod.tick", len(batch.URLs))
 			if len(batch.URLs) > 0 {
 				logger.Debug("sending non-full batch to dispatcher", "size", len(batch.URLs))
 				copyBatch := *batch
+				verifhook.At("hq.prod.cut", "timer", copyBatch.URLs)
 				select {
 				case <-ctx.Done():
 					logger.Debug("closed")
@@ -146,6 +151,7 @@ func producerDispatcher(ctx context.Context, wg *sync.WaitGroup, batchCh chan *p
 			logger.Debug("closed")
 			return
 		case batch := <-batchCh:
+			verifhook.At("hq.prod.dispatch", batch.URLs)
 			batchUUID := uuid.NewString()[:6]
 			senderSemaphore <- struct{}{} // Blocks if maxSenders reached.
 			producerWg.Add(1)
@@ -171,7 +177,9 @@ func producerSender(ctx context.Context, batch *producerBatch, batchUUID string)
 	logger.Debug("sending batch to HQ", "size", len(batch.URLs))
 
 	for {
+		verifhook.At("hq.prod.send", batch.URLs)
 		err := globalHQ.client.Add(context.TODO(), batch.URLs, false) // Use bypassSeencheck = false
+		verifhook.At("hq.prod.sent", batch.URLs, err)
 		select {
 		case <-ctx.Done():
 			logger.Debug("closing")
